@@ -1,6 +1,7 @@
 package main
 
 import (
+	"path/filepath"
 	"fmt"
 	"go/ast"
 	"go/token"
@@ -216,9 +217,9 @@ func (x *Exec) runFunc(fr *Frame, entry *State) (*State, Val) {
 			if p.Succs[0] == b && p.Succs[1] == b {
 				// both edges
 			} else if p.Succs[0] == b {
-				x.assume(s, c)
+				x.branch(s, c)
 			} else {
-				x.assume(s, tb.Not(c))
+				x.branch(s, tb.Not(c))
 			}
 		}
 		return s
@@ -247,7 +248,7 @@ func (x *Exec) runFunc(fr *Frame, entry *State) (*State, Val) {
 		{
 			var rs []*Term
 			for _, s := range ins {
-				rs = append(rs, s.reach)
+				rs = append(rs, x.pcOf(s))
 			}
 			inOwn = x.ownConds(rs)
 		}
@@ -369,6 +370,12 @@ func (x *Exec) runFunc(fr *Frame, entry *State) (*State, Val) {
 				}
 				exits = append(exits, exitRec{st.clone(), Val{T: resT, L: ls}})
 				terminated = true
+				if fr == x.top && !fr.spec && fr.unit != nil && x.cfg.CoverReturns {
+					pos := x.ld.Fset.Position(t.Pos())
+					o := &Obligation{Name: fmt.Sprintf("%s#cover:return@%d", x.unitName(), len(exits)-1), Kind: "cover", Func: x.unitName(), Hyp: st.reach, Goal: x.tb.False,
+						Cover: true, Advisory: true, Props: fr.unit.C.Props, Pos: fmt.Sprintf("%s:%d", filepath.Base(pos.Filename), pos.Line)}
+					x.obls = append(x.obls, o)
+				}
 			case *ssa.Panic:
 				if fr.spec {
 					// spec functions are total: a panicking branch yields an arbitrary value
@@ -441,10 +448,13 @@ func (x *Exec) runFunc(fr *Frame, entry *State) (*State, Val) {
 	if len(live) == 0 {
 		return x.mergeStates(nil), x.freshVal(resT, "noret")
 	}
+	if fr == x.top {
+		x.topExits = live
+	}
 	res := Val{T: resT, L: append([]*Term{}, live[len(live)-1].res.L...)}
 	var lrs []*Term
 	for _, e := range live {
-		lrs = append(lrs, e.st.reach)
+		lrs = append(lrs, x.pcOf(e.st))
 	}
 	lown := x.ownConds(lrs)
 	for k := len(live) - 2; k >= 0; k-- {
@@ -604,12 +614,7 @@ func (x *Exec) havocLoop(fr *Frame, st *State, li *loopInfo) {
 		}
 	}
 	if allocs {
-		bv64 := tb.BV(64)
-		old := x.heapGet(st, "g:alloc", tb.Array(bv64, tb.Bool))
-		nw := tb.Fresh("alloc_loop", tb.Array(bv64, tb.Bool))
-		r := tb.BoundVar("r", bv64)
-		x.assume(st, tb.Forall([]*Term{r}, tb.Implies(tb.Select(old, r), tb.Select(nw, r))))
-		x.heapSet(st, "g:alloc", nw)
+		x.bumpNow(st)
 	}
 }
 
